@@ -14,7 +14,7 @@ ID = "C18"
 LEVEL = "exploration"
 RULE = ("a case = up to 4 simulated hosts, each consistently good (well-formed V2/V3 reply) or bad (one class of: random bytes, valid "
         "envelope with a short body, non-text serial/name, name without separators, non-hex type, XML without the expected elements or "
-        "attributes, truncated reply, undecryptable payload, marker-only), each sending 1..3 copies of its reply from source ports "
+        "attributes, truncated reply, undecryptable payload, marker-only), each sending 1..3 copies of its reply (a good host may answer with a V2-style and a V3-style reply of the same identity, in either order, back to back or 0.3 s apart) from source ports "
         "{6445, 20086, random}; the arrival order of all datagrams is a parameter (every distinct interleaving for <= 6 datagrams, "
         "seeded random orders beyond). Oracle: Discover.discover() returns normally, the reported addresses are exactly the good hosts, "
         "one device per address, and nothing reaches the event loop's exception handler. distinct = (hosts, classes, arrival order); "
@@ -29,7 +29,8 @@ EXHAUSTIVE = {t: ["every distinct arrival interleaving of <= 6 datagrams from <=
               for t in ("quick", "thorough")}
 
 BAD_CLASSES = ["random-bytes", "short-body", "non-text-sn", "non-text-name", "no-separators", "non-hex-type", "xml-no-device",
-               "xml-no-port", "truncated", "undecryptable", "marker-only-5a5a", "marker-only-8370", "empty-body", "one-separator"]
+               "xml-no-port", "truncated", "undecryptable", "marker-only-5a5a", "marker-only-8370", "empty-body", "one-separator",
+               "xml-truncated", "lt-garbage", "xml-empty-root", "tiny-body"]
 SN = b"000000P0000000Q1F0C9D153F7B40000"
 
 
@@ -57,6 +58,15 @@ def _bad_reply(klass, ip, version, salt):
         return wrap(D.build_payload(ip, 6444, SN, b"net_"))
     if klass == "non-hex-type":
         return wrap(D.build_payload(ip, 6444, SN, b"net_zz_0001"))
+    if klass == "xml-truncated":
+        full = b"<?xml version='1.0' encoding='utf-8'?><root><body><device sn='1' port='6444'/></body></root>"
+        return full[: 1 + (salt * 5) % (len(full) - 2)]
+    if klass == "lt-garbage":
+        return b"<" + bytes((salt * 13 + i * 7) & 0xFF for i in range(20 + salt % 30))
+    if klass == "xml-empty-root":
+        return b"<a/>"
+    if klass == "tiny-body":
+        return wrap(bytes(salt % 6))          # 0..5 plaintext bytes, correctly padded
     if klass == "xml-no-device":
         return b"<?xml version='1.0'?><root><body/></root>"
     if klass == "xml-no-port":
@@ -114,6 +124,15 @@ def generate(ctx, rng):
             n += 1
             yield ("dup", n), {"hosts": [{"good": True, "version": 2 + (i + n) % 2, "copies": c} for i, c in enumerate(counts)],
                                "order": order, "salt": rng.randrange(1000)}
+    # good hosts that answer with both a V2-style and a V3-style reply (one per probe port), in both orders and timings
+    for counts in ([2], [3], [2, 1], [2, 2], [3, 2], [2, 2, 1]):
+        for first_version in (2, 3):
+            for gap in (0.0, 0.01, 0.3):
+                for order in _orders(counts, 30 if quick else 300):
+                    n += 1
+                    yield ("dual", n), {"hosts": [{"good": True, "version": first_version if i == 0 else 2 + (i + n) % 2, "copies": c,
+                                                   "dual": "always" if i == 0 else False} for i, c in enumerate(counts)],
+                                        "order": order, "salt": rng.randrange(1000), "gap": gap}
     for j in range(1500 if quick else 150000):
         nh = rng.randint(1, 4)
         hosts = [({"good": False, "klass": rng.choice(BAD_CLASSES), "version": rng.choice([2, 3]), "copies": rng.randint(1, 3)}
@@ -133,20 +152,30 @@ def run_case(ctx, case):
     for i, h in enumerate(hosts):
         ip = f"10.18.0.{i + 1}"
         if h["good"]:
-            replies[i] = _good_reply((r.getrandbits(48), 6444, r.getrandbits(16)), ip, h["version"])
+            ident = (r.getrandbits(48), 6444, r.getrandbits(16))
+            replies[i] = _good_reply(ident, ip, h["version"])
+            if h.get("dual"):
+                # the same device answers the probes on both ports: a V2-style and a V3-style reply with the same identity
+                replies[(i, "alt")] = _good_reply(ident, ip, 5 - h["version"])
         else:
             replies[i] = _bad_reply(h["klass"], ip, h["version"], case["salt"] + i)
     per_host = {i: [] for i in range(len(hosts))}
+    seen_first = set()
     for k, i in enumerate(case["order"]):
         sport = r.choice([None, 6445, 20086, r.randint(1024, 65535)])
-        per_host[i].append((0.05 + 0.01 * k, sport, replies[i]))
+        payload = replies[i]
+        if hosts[i].get("dual") and i in seen_first:
+            payload = replies[(i, "alt")] if (k % 2 or hosts[i].get("dual") == "always") else replies[i]
+        seen_first.add(i)
+        gap = case.get("gap", 0.01)
+        per_host[i].append((0.05 + gap * k, sport, payload))
     for i, h in enumerate(hosts):
         sims.append(SimHost(net, f"10.18.0.{i + 1}", r.choice([6445, 20086]), per_host[i]))
 
     async def go(loop):
         return await Discover.discover(auto_connect=False)
 
-    key = ("c18", tuple((h["good"], h.get("klass"), h["version"], h["copies"]) for h in hosts), tuple(case["order"]))
+    key = ("c18", tuple((h["good"], h.get("klass"), h["version"], h["copies"], h.get("dual")) for h in hosts), tuple(case["order"]), case.get("gap"))
     nontrivial = len(case["order"]) >= 2 or any(not h["good"] for h in hosts)
     unhandled = []
     try:
